@@ -70,27 +70,30 @@ Restrict(f, S) == [x \in S |-> f[x]]
 (* pidSeen is the persistent state id read by writeHistory: with asynchronous flushing it  *)
 (* may still be the value from before the flush scheduled by the previous commit of the    *)
 (* same call (the wait for the frozen buffer comes after the history is written).          *)
-CommitOne(s, c, full, force, pidSeen) ==
+CommitParts(s, c, full, force, pidSeen) ==
   LET L        == Head(s.chain)
       id       == s.disk.id + 1
       rec      == [parent |-> s.disk.root, root |-> L.root, prev |-> PrevOf(s.disk.root, L.diff)]
       recs1    == [i \in (DOMAIN s.hist.recs) \cup {id} |-> IF i = id THEN rec ELSE s.hist.recs[i]]
       over     == c.histLimit # 0 /\ id - s.hist.tail > c.histLimit
       newFirst == id - c.histLimit + 1
-      skip     == over /\ pidSeen < newFirst           \* skip tail truncation, force a flush instead
+      skip     == over /\ pidSeen < newFirst            \* skip tail truncation, force a flush instead
       tail1    == IF over /\ ~skip THEN newFirst - 1 ELSE s.hist.tail
+      hist0    == [tail |-> s.hist.tail, head |-> id, recs |-> recs1]      \* history appended
       hist1    == [tail |-> tail1, head |-> id, recs |-> Restrict(recs1, {i \in DOMAIN recs1 : i > tail1})]
       ids0     == IF s.disk.id = 0 THEN (s.disk.root :> 0) @@ s.ids ELSE s.ids
       ids1     == (L.root :> id) @@ ids0
       buf1     == Over(s.buf, L.diff)
       flush    == full \/ force \/ skip
-  IN  [chain |-> Tail(s.chain),
-       disk  |-> [root |-> L.root, id |-> id],
-       buf   |-> IF flush THEN NoneLike(buf1) ELSE buf1,
-       bufN  |-> IF flush THEN 0 ELSE s.bufN + 1,
-       kv    |-> IF flush THEN [world |-> Over(s.kv.world, buf1), pid |-> id] ELSE s.kv,
-       ids   |-> ids1,
-       hist  |-> hist1]
+  IN  [hist0 |-> hist0, hist1 |-> hist1, ids0 |-> ids0, ids1 |-> ids1, flush |-> flush,
+       fin |-> [chain |-> Tail(s.chain),
+                disk  |-> [root |-> L.root, id |-> id],
+                buf   |-> IF flush THEN NoneLike(buf1) ELSE buf1,
+                bufN  |-> IF flush THEN 0 ELSE s.bufN + 1,
+                kv    |-> IF flush THEN [world |-> Over(s.kv.world, buf1), pid |-> id] ELSE s.kv,
+                ids   |-> ids1,
+                hist  |-> hist1]]
+CommitOne(s, c, full, force, pidSeen) == CommitParts(s, c, full, force, pidSeen).fin
 
 (* flatten Len(fs) layers; fs[i] = buffer full after merging layer i, sts[i] = layer i's    *)
 (* writeHistory saw the persistent id from before the previous layer's flush               *)
